@@ -233,7 +233,7 @@ def _process_file_findings(tree, repo):
     return "AsRead"
 
 
-custom("process_file_findings", "src/codemodder/codemods/base_codemod.py", _LOC_PROPS, "process_file_shape", "as_read", "AsRead",
+custom("process_file_findings", "src/codemodder/codemods/base_codemod.py", _LOC_PROPS, "loc_process_file_shape", "as_read", "AsRead",
        _process_file_findings, doc="BaseCodemod._process_file: findings per rule, short circuit, transformer.apply")
 
 # C18: the internal semgrep run keys results by the last dotted component of the rule id and by the path as given
